@@ -1,0 +1,106 @@
+//go:build verif
+// +build verif
+
+// Contracts for package rtsp (wire format), read by /verif's govc (contract-based deductive verification).
+// This file contains comments only; it is compiled only under the build tag "verif" and adds no code.
+
+package rtsp
+
+//@ import "io"
+//@ import "bufio"
+//@ import "strings"
+//@ import "strconv"
+//@ import "net/url"
+
+// ---- assumed contracts on dependencies (scoped to this package) -----------------------------------
+// A reader r yields the ghost byte stream ghostBytes(r,"src") from cursor ghostInt(r,"rpos").
+//@ extern func io.ReadFull(r io.Reader, buf []byte) (n int, err error)
+//@   modifies buf[:], ghostInt(r, "rpos")
+//@   copies buf, ghostBytes(r, "src")[ghostInt(r, "rpos"):], iteInt(err == nil, len(buf), 0)
+//@   ensures err == nil ==> n == len(buf) && ghostInt(r, "rpos") == old(ghostInt(r, "rpos")) + len(buf)
+//@   ensures err != nil ==> ghostInt(r, "rpos") >= old(ghostInt(r, "rpos")) && ghostInt(r, "rpos") <= old(ghostInt(r, "rpos")) + len(buf)
+//@   ensures old(ghostInt(r, "rpos")) >= 0 && old(ghostInt(r, "rpos")) <= 1<<60
+// ReadLine returns at most one buffer-full of a line (a slice of the reader's buffer); the cursor never moves back
+//@ extern func (b *bufio.Reader) ReadLine() (line []byte, isPrefix bool, err error)
+//@   requires b != nil
+//@   modifies ghostInt(b, "rpos")
+//@   ensures len(line) <= 1<<24 && ghostInt(b, "rpos") >= old(ghostInt(b, "rpos"))
+//@   ensures err != nil ==> len(line) == 0
+// string library: index results lie inside the string; trimming never lengthens
+//@ extern func strings.Index(s string, substr string) (i int)
+//@   modifies
+//@   ensures i == -1 || (0 <= i && i <= len(s) - len(substr) && len(substr) <= len(s))
+//@ extern func strings.IndexByte(s string, c byte) (i int)
+//@   modifies
+//@   ensures i == -1 || (0 <= i && i < len(s))
+//@ extern func strings.LastIndex(s string, substr string) (i int)
+//@   modifies
+//@   ensures i == -1 || (0 <= i && i <= len(s) - len(substr) && len(substr) <= len(s))
+//@ extern func strings.TrimSpace(s string) (r string)
+//@   modifies
+//@   ensures len(r) <= len(s)
+//@ extern func strings.TrimLeft(s string, cutset string) (r string)
+//@   modifies
+//@   ensures len(r) <= len(s)
+//@ extern func strings.TrimSuffix(s string, suffix string) (r string)
+//@   modifies
+//@   ensures len(r) <= len(s)
+//@ extern func strings.ToUpper(s string) (r string)
+//@   modifies
+//@ extern func (r *strings.Replacer) Replace(s string) (res string)
+//@   modifies
+//@ extern func url.ParseRequestURI(rawURL string) (u *url.URL, err error)
+//@   modifies
+//@   fresh u
+//@   ensures err == nil ==> u != nil
+//@ extern func strconv.ParseInt(s string, base int, bitSize int) (i int64, err error)
+//@   modifies
+//@   ensures err == nil && bitSize == 32 ==> -(1<<31) <= i && i < 1<<31
+//@ extern func strconv.Atoi(s string) (i int, err error)
+//@   modifies
+
+// ---- limits (C14): an over-long line is rejected, not buffered without limit ---------------------------------------
+//@ func readLine(r *bufio.Reader) (s string, err error)
+//@   requires r != nil
+//@   modifies ghostInt(r, "rpos")
+//@   local line []byte
+//@   loop 0: modifies ghostInt(r, "rpos")
+//@   loop 0: invariant len(line) <= 16*1024 && ghostInt(r, "rpos") >= old(ghostInt(r, "rpos"))
+//@   ensures err == nil ==> len(s) <= 16*1024
+//@   ensures ghostInt(r, "rpos") >= old(ghostInt(r, "rpos"))
+
+// Content-Length as used for the body read: never negative, at most 2^31-1
+//@ func (h Header) Int(key string) (n int)
+//@   modifies
+//@   ensures 0 <= n && n < 1<<31
+
+// header block: arbitrary bytes give an error or a header map, never a panic
+//@ func ReadHeader(r *bufio.Reader) (h Header, err error)
+//@   requires r != nil
+//@   modifies ghostInt(r, "rpos"), anyElems(h[""])
+//@   loop 0: modifies ghostInt(r, "rpos"), mapAll(h), anyElems(h[""])
+//@   loop 0: invariant h != nil && ghostInt(r, "rpos") >= old(ghostInt(r, "rpos"))
+//@   ensures err == nil ==> h != nil
+//@   ensures ghostInt(r, "rpos") >= old(ghostInt(r, "rpos"))
+
+// maximum body accepted (an absurd Content-Length is rejected instead of being allocated and awaited)
+//@ spec func bodyLimit() int = 1 << 20
+
+// request: arbitrary bytes give an error or a request, never a panic; on success the body is exactly the
+// Content-Length bytes that precede the final cursor (nothing invented, nothing left unread), bounded in size;
+// a stream that ends inside the body is an error, not a message
+//@ func ReadRequest(r *bufio.Reader) (req *Request, err error)
+//@   requires r != nil
+//@   modifies all()
+//@   ensures err == nil ==> req != nil && req.URL != nil && req.Header != nil
+//@   ensures err == nil ==> len(req.Body) <= bodyLimit()
+//@   ensures err == nil ==> forall(k, 0, len(req.Body), req.Body[k] == ghostBytes(r, "src")[ghostInt(r, "rpos") - len(req.Body) + k])
+//@   ensures (err == nil) == (req != nil)
+
+//@ func ReadResponse(r *bufio.Reader) (resp *Response, err error)
+//@   requires r != nil
+//@   modifies all()
+//@   ensures err == nil ==> resp != nil && resp.Header != nil
+//@   ensures err == nil ==> len(resp.Body) <= bodyLimit()
+//@   ensures err == nil ==> forall(k, 0, len(resp.Body), resp.Body[k] == ghostBytes(r, "src")[ghostInt(r, "rpos") - len(resp.Body) + k])
+//@   ensures (err == nil) == (resp != nil)
